@@ -393,4 +393,437 @@ example : ArgsWF (Other.items [.ent (mkEntry "/a/.".toList 0 1), .path "/a/".toL
   subst he
   exact mkEntry_normal _ _ _
 
+/-! ## the representation invariant is kept; `len` counts keys -/
+
+/-- every operation returns a well-formed set (one entry per key, normalised locations) when given well-formed
+sets and real entries -/
+theorem operations_preserve_wf (c : CSet) (o : Other) (a : Arg) (e : Entry) (old new : Path) (t : Nat)
+    (h : WF c) (he : Normal e.loc) (ho : ArgsWF o.args) :
+    WF (add c e) ∧ WF (discard c a) ∧ (∀ r, delitem c a = some r → WF r) ∧
+    WF (difference c o) ∧ WF (differenceUpdate c o) ∧ WF (intersection c o) ∧ WF (intersectionUpdate c o) ∧
+    (∀ r, union c o = some r → WF r) ∧ (∀ r, symmetricDifference c o = some r → WF r) ∧
+    (∀ r, symmetricDifferenceUpdate c o = some r → WF r) ∧ (∀ r, updateOther c o = some r → WF r) ∧
+    (∀ r, changeOffset c old new = some r → WF r) ∧ WF (addMissingDirectories c t) := by
+  have hents : ∀ es, o.entries = some es → ∀ x ∈ es, Normal x.loc := by
+    intro es hes x hx
+    apply ho
+    rw [entries_args hes]
+    exact List.mem_map.2 ⟨x, hx, rfl⟩
+  have hcore : ∀ c0 o' : CSet, WF c0 → (∀ x ∈ o', Normal x.loc) → WF (symDiffCore c0 o') := by
+    intro c0 o' h0 hn
+    unfold symDiffCore
+    apply WF_foldl_dictDel
+    have : ∀ (l : List Entry) (c1 : CSet), WF c1 → (∀ x ∈ l, Normal x.loc) →
+        WF (l.foldl (fun (c : CSet) (x : Entry) => if contains c (.ent x) then c else add c x) c1) := by
+      intro l
+      induction l with
+      | nil => intro c1 h1 _; exact h1
+      | cons x xs ih =>
+        intro c1 h1 hl
+        simp only [List.foldl_cons]
+        apply ih _ _ (fun y hy => hl y (by simp [hy]))
+        split
+        · exact h1
+        · exact WF_dictSet h1 (hl x (by simp))
+    exact this o' c0 h0 hn
+  have hsdu : ∀ c0, WF c0 → ∀ r, symmetricDifferenceUpdate c0 o = some r → WF r := by
+    intro c0 h0 r hr
+    cases o with
+    | cset c' =>
+      simp only [symmetricDifferenceUpdate, Option.some.injEq] at hr
+      subst hr
+      exact hcore c0 c' h0 (fun x hx => ho x (List.mem_map.2 ⟨x, hx, rfl⟩))
+    | items l =>
+      cases hes : (Other.items l).entries with
+      | none =>
+        have : entriesOf l = none := hes
+        simp [symmetricDifferenceUpdate, Other.entries, this] at hr
+      | some es =>
+        have hes' : entriesOf l = some es := hes
+        simp only [symmetricDifferenceUpdate, Other.entries, hes', Option.map_some, Option.some.injEq] at hr
+        subst hr
+        exact hcore c0 _ h0 (WF_update WF_nil (hents es hes)).2
+  refine ⟨WF_dictSet h he, WF_dictDel _ h, ?_, WF_filter _ h, ?_, ?_, WF_foldl_dictDel _ h, ?_, ?_, hsdu c h, ?_, ?_, ?_⟩
+  · intro r hr
+    unfold delitem at hr
+    split at hr
+    · simp only [Option.some.injEq] at hr; subst hr; exact WF_dictDel _ h
+    · cases hr
+  · unfold differenceUpdate
+    have : ∀ (l : List Arg) (c1 : CSet), WF c1 →
+        WF (l.foldl (fun c a => if contains c a then dictDel c (keyOf a) else c) c1) := by
+      intro l
+      induction l with
+      | nil => intro c1 h1; exact h1
+      | cons x xs ih =>
+        intro c1 h1
+        simp only [List.foldl_cons]
+        apply ih
+        split
+        · exact WF_dictDel _ h1
+        · exact h1
+    exact this _ c h
+  · unfold intersection
+    apply WF_update WF_nil
+    intro x hx
+    obtain ⟨b, hb, hbx⟩ := List.mem_filterMap.1 hx
+    obtain ⟨_, _, hent, hpath⟩ := interItem_some hbx
+    cases b with
+    | ent y =>
+      have : y = x := by simpa [Arg.entry?] using hent
+      subst this
+      exact ho y hb
+    | path s =>
+      have := hpath rfl
+      exact h.2 x (lookup_some this).1
+  · intro r hr
+    cases hes : o.entries with
+    | none => simp [union, hes] at hr
+    | some es =>
+      simp only [union, hes, Option.map_some, Option.some.injEq] at hr
+      subst hr
+      exact WF_update (WF_update WF_nil (hents es hes)) h.2
+  · intro r hr
+    exact hsdu _ (WF_update WF_nil h.2) r hr
+  · intro r hr
+    cases hes : o.entries with
+    | none => simp [updateOther, hes] at hr
+    | some es =>
+      simp only [updateOther, hes, Option.map_some, Option.some.injEq] at hr
+      subst hr
+      exact WF_update h (hents es hes)
+  · intro r hr
+    unfold changeOffset at hr
+    cases hm : c.mapM (fun e => changeLocation e (rewriteLoc (offsetLen old) new e.loc)) with
+    | none => simp [hm] at hr
+    | some l =>
+      simp only [hm, Option.map_some, Option.some.injEq] at hr
+      subst hr
+      apply WF_update WF_nil
+      intro x hx
+      obtain ⟨y, _, hy⟩ := mem_of_mapM_some _ _ _ hm x hx
+      unfold changeLocation at hy
+      split at hy
+      · simp only [Option.some.injEq] at hy
+        subst hy
+        exact mkEntry_normal _ _ _
+      · cases hy
+  · rw [addMissingDirectories_eq]
+    apply WF_update h
+    intro x hx
+    obtain ⟨y, _, rfl⟩ := List.mem_map.1 hx
+    exact mkEntry_normal _ _ _
+
+/-- `len(cset)` is the number of keys of the map -/
+theorem len_counts_keys (c : CSet) (h : WF c) (ks : List Path) (hnd : ks.Nodup)
+    (hks : ∀ p, p ∈ ks ↔ (abs c).has p = true) : c.length = ks.length := by
+  have hperm : (c.map (·.loc)).Perm ks := by
+    rw [List.perm_ext_iff_of_nodup h.1 hnd]
+    intro p
+    rw [hks]
+    show p ∈ c.map (·.loc) ↔ hasKey c p = true
+    rw [hasKey_iff, List.mem_map]
+  simpa using hperm.length_eq
+
+example : (abs [mkEntry "/a".toList 0 1]).has "/a".toList = true := by decide
+
+/-! ## relocation -/
+
+/-- **Relocating replaces the old prefix with the new one.**  `old` may be any spelling of the old offset (its
+normal form is `render k cs0`; the empty string counts as `/`), `new` any absolute spelling of the new one; a
+location under the old offset, `render k (cs0 ++ rel)`, is rewritten to the normal form of `new` followed by the same
+relative components. -/
+theorem change_offset_prefix (old new : Path) (k : Nat) (cs0 rel : List (List Char)) (hk : k = 1 ∨ k = 2)
+    (hcl0 : Clean cs0) (hrel : Clean rel)
+    (hold : normpath (if old = [] then ['/'] else old) = render k cs0) (hnew : new.head? = some '/') :
+    ∃ k' cs1, (k' = 1 ∨ k' = 2) ∧ Clean cs1 ∧ normpath new = render k' cs1 ∧
+      rewriteLoc (offsetLen old) new (render k (cs0 ++ rel)) = render k' (cs1 ++ rel) ∧
+      Relocated (render k cs0) (normpath new) (render k (cs0 ++ rel))
+        (rewriteLoc (offsetLen old) new (render k (cs0 ++ rel))) := by
+  obtain ⟨hgood, hnp, hk'⟩ := normpath_abs_eq new hnew
+  have hcl1 : Clean (normLoop true [] (splitSlash new)).reverse := by
+    intro x hx
+    exact hgood.clean_of_abs x (by simpa using hx)
+  have hrw := rewriteLoc_render old new k cs0 rel hcl0 hrel hold hnew
+  exact ⟨_, _, hk', hcl1, hnp, hrw,
+    ⟨k, cs0, rel, _, _, hk, hk', hcl0, hrel, hcl1, rfl, rfl, hnp, hrw⟩⟩
+
+example : normpath (if "/usr/.".toList = [] then ['/'] else "/usr/.".toList) = render 1 ["usr".toList] := by decide
+
+/-- relocation of a whole set whose entries all lie under the old offset: every entry keeps kind and attributes and
+moves to the relocated path; no two entries collide, the result is well formed and has the same size -/
+theorem change_offset_set (c : CSet) (old new : Path) (k : Nat) (cs0 : List (List Char)) (hk : k = 1 ∨ k = 2)
+    (hcl0 : Clean cs0) (hwf : WF c)
+    (hold : normpath (if old = [] then ['/'] else old) = render k cs0) (hnew : new.head? = some '/')
+    (hunder : ∀ e ∈ c, ∃ rel, Clean rel ∧ e.loc = render k (cs0 ++ rel)) :
+    ∃ r, changeOffset c old new = some r ∧ WF r ∧ r.length = c.length ∧
+      (∀ e ∈ c, ∃ e' ∈ r, e'.kind = e.kind ∧ e'.tag = e.tag ∧ Relocated (render k cs0) (normpath new) e.loc e'.loc) ∧
+      (∀ e' ∈ r, ∃ e ∈ c, e'.kind = e.kind ∧ e'.tag = e.tag ∧ Relocated (render k cs0) (normpath new) e.loc e'.loc) := by
+  obtain ⟨hgood, hnp, hk'⟩ := normpath_abs_eq new hnew
+  generalize hk1 : initialSlashes new = k' at hnp hk'
+  generalize hcs1 : (normLoop true [] (splitSlash new)).reverse = cs1 at hnp
+  have hcl1 : Clean cs1 := by
+    intro x hx
+    rw [← hcs1] at hx
+    exact hgood.clean_of_abs x (by simpa using hx)
+  -- the relocated entry, as a function
+  let f : Entry → Entry := fun e => ⟨rewriteLoc (offsetLen old) new e.loc, e.kind, e.tag⟩
+  have hf : ∀ e ∈ c, ∃ rel, Clean rel ∧ e.loc = render k (cs0 ++ rel) ∧ (f e).loc = render k' (cs1 ++ rel) := by
+    intro e he
+    obtain ⟨rel, hrel, hloc⟩ := hunder e he
+    refine ⟨rel, hrel, hloc, ?_⟩
+    show rewriteLoc (offsetLen old) new e.loc = _
+    rw [hloc, rewriteLoc_render old new k cs0 rel hcl0 hrel hold hnew, hk1, hcs1]
+  have hstep : ∀ e ∈ c, changeLocation e (rewriteLoc (offsetLen old) new e.loc) = some (f e) := by
+    intro e he
+    obtain ⟨rel, hrel, _, hfl⟩ := hf e he
+    have hfl' : rewriteLoc (offsetLen old) new e.loc = render k' (cs1 ++ rel) := hfl
+    have hcl : Clean (cs1 ++ rel) := by
+      intro x hx
+      rcases List.mem_append.1 hx with h | h
+      · exact hcl1 x h
+      · exact hrel x h
+    unfold changeLocation
+    have hhead : (rewriteLoc (offsetLen old) new e.loc).head? = some '/' := by
+      rw [hfl']
+      rcases hk' with rfl | rfl <;> simp [render, List.replicate]
+    rw [if_pos hhead]
+    show some (mkEntry _ _ _) = some (f e)
+    congr 1
+    show Entry.mk (normpath _) e.kind e.tag = Entry.mk _ e.kind e.tag
+    rw [hfl', normpath_render k' hk' _ hcl]
+  have hmap : c.mapM (fun e => changeLocation e (rewriteLoc (offsetLen old) new e.loc)) = some (c.map f) :=
+    mapM_some_of_forall _ f c hstep
+  -- relocated locations are pairwise distinct
+  have hinj : ((c.map f).map (·.loc)).Nodup := by
+    have : (c.map f).map (·.loc) = (c.map (·.loc)).map (rewriteLoc (offsetLen old) new) := by
+      simp [List.map_map, f, Function.comp_def]
+    rw [this]
+    apply nodup_map_of_injOn _ _ hwf.1
+    intro p1 hp1 p2 hp2 heq
+    obtain ⟨e1, he1, rfl⟩ := List.mem_map.1 hp1
+    obtain ⟨e2, he2, rfl⟩ := List.mem_map.1 hp2
+    obtain ⟨rel1, hr1, hl1, hf1⟩ := hf e1 he1
+    obtain ⟨rel2, hr2, hl2, hf2⟩ := hf e2 he2
+    have hf1' : rewriteLoc (offsetLen old) new e1.loc = render k' (cs1 ++ rel1) := hf1
+    have hf2' : rewriteLoc (offsetLen old) new e2.loc = render k' (cs1 ++ rel2) := hf2
+    have hcl : ∀ rel, Clean rel → Clean (cs1 ++ rel) := by
+      intro rel hrel x hx
+      rcases List.mem_append.1 hx with h | h
+      · exact hcl1 x h
+      · exact hrel x h
+    have heq' : render k' (cs1 ++ rel1) = render k' (cs1 ++ rel2) := by rw [← hf1', ← hf2']; exact heq
+    have := (render_inj hk' hk' (hcl rel1 hr1) (hcl rel2 hr2) heq').2
+    have hrel : rel1 = rel2 := List.append_cancel_left this
+    rw [hl1, hl2, hrel]
+  have hr : update [] (c.map f) = c.map f := by
+    have := update_nil_of_nodup (c.map f) [] (by simpa using hinj)
+    simpa using this
+  refine ⟨c.map f, by simp [changeOffset, hmap, hr], ⟨hinj, ?_⟩, by simp, ?_, ?_⟩
+  · intro x hx
+    obtain ⟨e, he, rfl⟩ := List.mem_map.1 hx
+    obtain ⟨rel, hrel, _, hfl⟩ := hf e he
+    show normpath (f e).loc = (f e).loc
+    rw [hfl]
+    apply normpath_render k' hk'
+    intro y hy
+    rcases List.mem_append.1 hy with h | h
+    · exact hcl1 y h
+    · exact hrel y h
+  · intro e he
+    obtain ⟨rel, hrel, hloc, hfl⟩ := hf e he
+    exact ⟨f e, List.mem_map.2 ⟨e, he, rfl⟩, rfl, rfl,
+      ⟨k, cs0, rel, k', cs1, hk, hk', hcl0, hrel, hcl1, rfl, hloc, hnp, hfl⟩⟩
+  · intro e' he'
+    obtain ⟨e, he, rfl⟩ := List.mem_map.1 he'
+    obtain ⟨rel, hrel, hloc, hfl⟩ := hf e he
+    exact ⟨e, he, rfl, rfl, ⟨k, cs0, rel, k', cs1, hk, hk', hcl0, hrel, hcl1, rfl, hloc, hnp, hfl⟩⟩
+
+example : ∀ e ∈ [mkEntry "/usr/bin/x".toList 0 1, mkEntry "/usr".toList 1 2],
+    ∃ rel, Clean rel ∧ e.loc = render 1 (["usr".toList] ++ rel) := by
+  intro e he
+  simp only [List.mem_cons, List.not_mem_nil, or_false] at he
+  rcases he with rfl | rfl
+  · refine ⟨["bin".toList, "x".toList], ?_, by decide⟩
+    intro c hc
+    simp only [List.mem_cons, List.not_mem_nil, or_false] at hc
+    rcases hc with rfl | rfl <;> exact ⟨by decide, by decide, by decide, by decide⟩
+  · exact ⟨[], by intro c hc; simp at hc, by decide⟩
+
+/-! ## completing missing directories -/
+
+/-- **The ancestor loop terminates.**  The model's `climb` is a total function (well-founded recursion on the length
+of the path) and satisfies the defining equation of the Python loop
+`while target not in missing and target not in self: missing.add(target); target = dirname(target)` for every input
+— in particular at the root, where `dirname` stops shortening the path. -/
+theorem climb_terminates (c : CSet) (missing : List Path) (t : Path) :
+    climb c missing t =
+      if t ∈ missing ∨ contains c (.path t) then missing else climb c (setAdd missing t) (dirname t) := by
+  rw [climb]
+  split
+  · rfl
+  · split
+    · rfl
+    · rename_i h hlt
+      rw [dirname_fixed t hlt, climb, if_pos (Or.inl (mem_setAdd.2 (Or.inr rfl)))]
+
+example : climb [] [] "/a/b".toList = ["/a/b".toList, "/a".toList, "/".toList] := by
+  rw [climb_terminates, if_neg (by decide), climb_terminates, if_neg (by decide), climb_terminates,
+    if_neg (by decide), climb_terminates, if_pos (by decide)]
+  decide
+
+/-- **Completing missing directories adds exactly the absent ancestors other than `/`.**  For a well-formed set of
+absolute locations: the result is well formed, every existing entry is untouched, and a path absent from the set is in
+the result iff it is not `/` and is a proper ancestor of some entry — in which case it is a directory with the
+requested attributes. -/
+theorem missing_dirs_exact (c : CSet) (t : Nat) (hwf : WF c) (habs : ∀ e ∈ c, AbsNormal e.loc) :
+    WF (addMissingDirectories c t) ∧
+    (∀ p e, abs c p = some e → abs (addMissingDirectories c t) p = some e) ∧
+    (∀ p, abs c p = none →
+      (abs (addMissingDirectories c t) p = none ∨ abs (addMissingDirectories c t) p = some ⟨p, kindDir, t⟩) ∧
+      ((abs (addMissingDirectories c t) p).isSome ↔ (p ≠ ['/'] ∧ ∃ e ∈ c, ProperAncestor p e.loc))) := by
+  have hWF : WF (addMissingDirectories c t) := by
+    rw [addMissingDirectories_eq]
+    apply WF_update hwf
+    intro x hx
+    obtain ⟨y, _, rfl⟩ := List.mem_map.1 hx
+    exact mkEntry_normal _ _ _
+  -- abbreviations
+  generalize hM : climbAll c (missing0 c) (missing0 c) = M
+  have habsN : ∀ p, AbsNormal p → Normal p := by
+    rintro p ⟨k, cs, hk, hcl, rfl⟩
+    exact normpath_render k hk cs hcl
+  -- every member of M is the j-th parent (j ≥ 1) of some entry, is absolute-normal, and is not a key
+  have hsound : ∀ x ∈ M, ¬ inS c x ∧ ∃ e ∈ c, ∃ j, up (j + 1) e.loc = x := by
+    intro x hx
+    rw [← hM] at hx
+    rcases climbAll_sound c _ _ x hx with h0 | ⟨hns, y, hy, j, hj⟩
+    · obtain ⟨hns, e, he, hd⟩ := (mem_missing0 c x).1 h0
+      exact ⟨hns, e, he, 0, hd⟩
+    · obtain ⟨_, e, he, hd⟩ := (mem_missing0 c y).1 hy
+      refine ⟨hns, e, he, j + 1, ?_⟩
+      rw [up_succ', hd, up_succ']
+      exact hj
+  have hupAbs : ∀ e ∈ c, ∀ j, AbsNormal (up j e.loc) := by
+    intro e he j
+    obtain ⟨k, cs, hk, hcl, hloc⟩ := habs e he
+    rw [hloc, up_render k hk cs hcl j]
+    exact ⟨k, _, hk, clean_take hcl _, rfl⟩
+  have hMabs : ∀ x ∈ M, AbsNormal x := by
+    intro x hx
+    obtain ⟨_, e, he, j, rfl⟩ := hsound x hx
+    exact hupAbs e he _
+  -- every member of M has its parent in M or among the keys
+  have hclosed : ∀ x ∈ M, dirname x ∈ M ∨ inS c (dirname x) := by
+    rw [← hM]
+    exact climbAll_closed c _ _ (fun x hx => Or.inl hx)
+  -- hence the whole chain of parents of an entry stays inside keys ∪ M
+  have hchain : ∀ e ∈ c, ∀ j, inS c (up j e.loc) ∨ up j e.loc ∈ M := by
+    intro e he j
+    induction j with
+    | zero => exact Or.inl ((inS_iff_of_normal (hwf.2 e he)).2 (hasKey_iff.2 ⟨e, he, rfl⟩))
+    | succ n ih =>
+      show inS c (dirname (up n e.loc)) ∨ dirname (up n e.loc) ∈ M
+      rcases ih with h | h
+      · have hN := habsN _ (hupAbs e he n)
+        obtain ⟨e', he', hl'⟩ := hasKey_iff.1 ((inS_iff_of_normal hN).1 h)
+        by_cases hin : inS c (dirname (up n e.loc))
+        · exact Or.inl hin
+        · right
+          rw [← hM]
+          apply climbAll_mono
+          exact (mem_missing0 c _).2 ⟨hin, e', he', by rw [hl']⟩
+      · rcases hclosed _ h with h2 | h2
+        · exact Or.inr h2
+        · exact Or.inl h2
+  -- the entries added
+  generalize hL : ((M.filter (· ≠ ['/'])).map fun x => mkEntry x kindDir t) = L
+  have hLmem : ∀ x, x ∈ L ↔ ∃ y ∈ M, y ≠ ['/'] ∧ x = ⟨y, kindDir, t⟩ := by
+    intro x
+    rw [← hL]
+    simp only [List.mem_map, List.mem_filter, decide_eq_true_eq]
+    constructor
+    · rintro ⟨y, ⟨hy, hne⟩, rfl⟩
+      refine ⟨y, hy, hne, ?_⟩
+      show Entry.mk (normpath y) kindDir t = _
+      rw [habsN y (hMabs y hy)]
+    · rintro ⟨y, hy, hne, rfl⟩
+      refine ⟨y, ⟨hy, hne⟩, ?_⟩
+      show Entry.mk (normpath y) kindDir t = _
+      rw [habsN y (hMabs y hy)]
+  have hres : ∀ p, abs (addMissingDirectories c t) p = (Map.insertAll Map.empty L p).or (abs c p) := by
+    intro p
+    rw [addMissingDirectories_eq, hM, hL, abs_update, insertAll_apply]
+  refine ⟨hWF, ?_, ?_⟩
+  · intro p e hpe
+    rw [hres, hpe]
+    have : Map.insertAll Map.empty L p = none := by
+      rw [insertAll_none_iff]
+      intro x hx hxp
+      obtain ⟨y, hy, _, rfl⟩ := (hLmem x).1 hx
+      have hyp : y = p := hxp
+      subst hyp
+      have hk : hasKey c y = true := by
+        show (lookup c y).isSome = true
+        have : lookup c y = some e := hpe
+        simp [this]
+      exact (hsound y hy).1 ((inS_iff_of_normal (habsN y (hMabs y hy))).2 hk)
+    rw [this]; rfl
+  · intro p hp
+    have hres' : abs (addMissingDirectories c t) p = Map.insertAll Map.empty L p := by
+      rw [hres, hp]; cases Map.insertAll Map.empty L p <;> rfl
+    have hnokey : hasKey c p = false := by
+      show (lookup c p).isSome = false
+      have : lookup c p = none := hp
+      simp [this]
+    rw [hres']
+    constructor
+    · cases hx : Map.insertAll Map.empty L p with
+      | none => exact Or.inl rfl
+      | some x =>
+        right
+        obtain ⟨hxL, hxp⟩ := insertAll_some_loc hx
+        obtain ⟨y, _, _, rfl⟩ := (hLmem x).1 hxL
+        have : y = p := hxp
+        subst this; rfl
+    · constructor
+      · intro hsome
+        obtain ⟨x, hx⟩ := Option.isSome_iff_exists.1 hsome
+        obtain ⟨hxL, hxp⟩ := insertAll_some_loc hx
+        obtain ⟨y, hyM, hyne, rfl⟩ := (hLmem x).1 hxL
+        have : y = p := hxp
+        subst this
+        refine ⟨hyne, ?_⟩
+        obtain ⟨_, e, he, j, hj⟩ := hsound y hyM
+        obtain ⟨k, cs, hk, hcl, hloc⟩ := habs e he
+        rw [hloc, up_render k hk cs hcl] at hj
+        by_cases hcs : cs.length = 0
+        · exfalso
+          have hnil : cs = [] := List.eq_nil_of_length_eq_zero hcs
+          subst hnil
+          have : y = e.loc := by rw [← hj, hloc]; simp
+          rw [this] at hnokey
+          have := hasKey_iff.2 ⟨e, he, rfl⟩
+          rw [hnokey] at this; cases this
+        · exact ⟨e, he, k, cs, cs.length - (j + 1), hk, hcl, hloc, by omega, hj.symm⟩
+      · rintro ⟨hne, e, he, k, cs, n, hk, hcl, hloc, hn, hpa⟩
+        have hup : up (cs.length - n) e.loc = p := by
+          rw [hloc, up_render k hk cs hcl, hpa]
+          congr 2
+          omega
+        have hpN : Normal p := habsN p ⟨k, _, hk, clean_take hcl n, hpa⟩
+        rcases hchain e he (cs.length - n) with h | h
+        · rw [hup] at h
+          have := (inS_iff_of_normal hpN).1 h
+          rw [hnokey] at this; cases this
+        · rw [hup] at h
+          have hxL : (⟨p, kindDir, t⟩ : Entry) ∈ L := (hLmem _).2 ⟨p, h, hne, rfl⟩
+          cases hx : Map.insertAll Map.empty L p with
+          | some x => rfl
+          | none =>
+            exfalso
+            exact (insertAll_none_iff L p).1 hx _ hxL rfl
+
+example : AbsNormal (mkEntry "/a/b//c".toList 0 1).loc := normpath_abs "/a/b//c".toList (by decide)
+
 end Pkgcore.C22
